@@ -193,6 +193,11 @@ struct Case {
 
 fn expected(c: &Case, m: &Option<Matrix4<f32>>) -> f64 {
     let p = [value_of(&Var::X), value_of(&Var::Y), value_of(&Var::Z)];
+    expected_at(c, m, p, 0.0)
+}
+
+/// Expected value at position `p` with every free variable's value raised by `dv`
+fn expected_at(c: &Case, m: &Option<Matrix4<f32>>, p: [f32; 3], dv: f32) -> f64 {
     let t = transformed(p, m);
     c.vars
         .iter()
@@ -203,7 +208,7 @@ fn expected(c: &Case, m: &Option<Matrix4<f32>>) -> f64 {
                     Var::X => t[0],
                     Var::Y => t[1],
                     Var::Z => t[2],
-                    v => value_of(v) as f64,
+                    v => (value_of(v) + dv) as f64,
                 }
         })
         .sum()
@@ -363,6 +368,49 @@ fn run_case<F: Backend>(cx: &mut Cx, c: &Case, label: &str) {
                 e,
             ),
         }
+        }
+        // lane-distinct bulk evaluation: every sample has its own position and
+        // its own value of every variable (11 samples: more than one SIMD
+        // vector, not a multiple of the width)
+        {
+            let nl = 11usize;
+            let pos = |l: usize| -> [f32; 3] { [x + l as f32 * 0.25, y - l as f32 * 0.5, z + l as f32 * 0.125] };
+            let r = guard(|| {
+                let t = shape.ez_float_slice_tape();
+                let mut e = Shape::<F>::new_float_slice_eval();
+                let xs: Vec<f32> = (0..nl).map(|l| pos(l)[0]).collect();
+                let ys: Vec<f32> = (0..nl).map(|l| pos(l)[1]).collect();
+                let zs: Vec<f32> = (0..nl).map(|l| pos(l)[2]).collect();
+                let mut arrays: ShapeVars<Vec<f32>> = ShapeVars::new();
+                for (k, v) in (&sv).into_iter() {
+                    arrays.insert(*k, (0..nl).map(|l| *v + l as f32).collect());
+                }
+                match &m {
+                    None => e.eval_with_var_arrays(&t, &xs, &ys, &zs, &arrays).map(|o| o.to_vec()),
+                    Some(m) => e.eval_with_transform_and_var_arrays(&t, &xs, &ys, &zs, m, &arrays).map(|o| o.to_vec()),
+                }
+                .map_err(|e| format!("{e}"))
+            })
+            .and_then(|r| r);
+            match r {
+                Ok(o) if o.len() == nl => {
+                    for (l, g) in o.iter().enumerate() {
+                        let want_l = expected_at(c, &m, pos(l), l as f32);
+                        cx.add("value_checks", 1);
+                        cx.add("lane_distinct_checks", 1);
+                        if !same(*g as f64, want_l, tname) {
+                            cx.violation(
+                                format!("{}-float-slice (per-sample positions and variable values) returns another sample's value", F::NAME),
+                                desc(),
+                                format!("transform {tname}: sample {l} of {nl}: got {g}, expected {want_l}"),
+                            );
+                            break;
+                        }
+                    }
+                }
+                Ok(o) => cx.violation(format!("{}-float-slice result length", F::NAME), desc(), format!("{} values for {nl} samples", o.len())),
+                Err(e) => cx.violation(format!("{}-float-slice (var arrays) failed", F::NAME), desc(), e),
+            }
         }
         // grad slice
         let r = guard(|| {
